@@ -91,7 +91,7 @@ def _family_of_template(t):
 def run(P, R, tier):
     F = P.func(MOD, ROOT)
     from rules import common as _common
-    _common.forward(P, R, 'C12', ['C12.c'], 'C10.e', 'the returned frame (and any re-read) loads the parts in numeric order: part.10 after part.2', floor=1)
+    _common.forward(P, R, 'C12', ['C12.c', 'C12.h'], 'C10.e', 'the returned frame (and any re-read) loads the parts in numeric order: part.10 after part.2', floor=1)
     _common.forward(P, R, 'C11', ['C11.d', 'C11.e'], 'C10.e', 'the returned frame is read back through read_parquet_dask', floor=1)
     helpers = {name: (g, _helper_kind(P, g)) for name, g in F.nested.items()}
     rm_helpers = [g for g, k in helpers.values() if 'rm' in k]
@@ -213,6 +213,15 @@ def run(P, R, tier):
         for wn in w_nodes:
             R.check(TC.dominates(rn, wn), 'C10.b', task, TC.stmt[wn], 'the written part is the one read from the sub-parts (read dominates write)',
                     'the part file can be written on a path that never read the sub-parts')
+    # (3b) Hilbert order inside the part: the frame read from the sub-parts is sorted by its index on EVERY path to the write (sub-parts come from several input
+    #      partitions in arbitrary order; a "single sub-part is already sorted" shortcut holds only if the writer of the sub-parts sorted by the SAME key)
+    sorts = [TC.node(_stmt(c)) for c in astq.own_calls(task) if isinstance(c.func, ast.Attribute) and c.func.attr in ('sort_index', 'sort_values')]
+    sorts = [n_ for n_ in sorts if n_ is not None]
+    for wn in w_nodes:
+        ok = bool(sorts) and TC.every_path_passes(TC.ENTRY, wn, sorts)
+        R.check(ok, 'C10.b', task, TC.stmt[wn], 'the part is sorted by its Hilbert-distance index on every path to the write',
+                'the part can be written without having been sorted by its index: rows inside the partition are not in Hilbert order (returned frame and re-read alike)',
+                construct='sort before write on every path')
     # (4) metadata files on every path to the return; return = read_parquet_dask(path, ...)
     meta_writers = {}
     for name, (g, k) in helpers.items():
@@ -224,6 +233,14 @@ def run(P, R, tier):
                         lit = t[-1][1] if t[-1][0] == 'lit' else None
                         if lit in ('_metadata', '_common_metadata'):
                             meta_writers[lit] = g
+                            # ... directly under the dataset path the caller gave (not next to the temp directories, which can lie outside the dataset)
+                            root = c.args[0].args[0] if isinstance(c.args[0], ast.Call) and c.args[0].args else None
+                            rsrc = astq.sources(F, astq.expand(g, root)) | astq.sources(g, root) if root is not None else set()
+                            pathp = F.params[1] if len(F.params) > 1 else 'path'
+                            tmpish = {n_ for n_ in rsrc if 'tmp' in n_.lower() or n_ == 'tempdir_format'}
+                            R.check(root is not None and pathp in rsrc and not tmpish, 'C10.c', g, c, f'{lit} is written directly under the dataset path',
+                                    f'`{norm(c.args[0])}`: the directory of {lit} derives from {sorted(tmpish) or sorted(rsrc)}, not from the dataset path alone: with temp directories outside the dataset '
+                                    f'the file lands next to them and the dataset is left without {lit}', construct=f'{lit} under the dataset path')
     for lit in ('_metadata', '_common_metadata'):
         g = meta_writers.get(lit)
         if g is None:
